@@ -223,7 +223,9 @@ def cli_sessions(inputs: list[bytes], work: str, rng: random.Random) -> list[dic
     kwdir = os.path.join(work, "kw")
     os.makedirs(os.path.join(kwdir, "sub"), exist_ok=True)
     with open(os.path.join(kwdir, "verif.words"), "wb") as f:
-        f.write(b"evil\r\n\r\nGetProcAddress\nexample\n")
+        # (some of the words are whole indicators: a keyword hit then has exactly the span of a built-in hit, and which of the two
+        # becomes the parent is decided by the order of the registry - the command line must build the library's registry)
+        f.write(b"evil\r\n\r\nGetProcAddress\nexample\nevil-site.net\na.exe\nmalware.exe\n10.20.30.40\n")
     with open(os.path.join(kwdir, "sub", "more.words"), "wb") as f:
         f.write(b"powershell\nIEX\n")
     with open(os.path.join(kwdir, "mots-cl\u00e9s.words"), "wb") as f:       # a label that is not ASCII
